@@ -163,11 +163,43 @@ TINY = [Fr(1)]
 def _ref(node: Any, vals: list[Fr | None]) -> tuple[Fr | None, Fr, bool]:
     """(value or None=undefined, magnitude bound, subtree contains a division)."""
     val, mag, div = _ref_inner(node, vals)
+    VALS[id(node)] = val
     if mag > PEAK[0]:
         PEAK[0] = mag
     if val is not None and val != 0 and abs(val) < TINY[0]:
         TINY[0] = abs(val)
     return val, mag, div
+
+
+VALS: dict[int, Fr | None] = {}
+"""Exact value of every node (by identity) in the last reference evaluation."""
+
+
+def _assoc_bounds(node: Any) -> tuple[Fr, Fr]:
+    """(upper, lower) bound on the magnitude of any non-zero partial result under ANY association.
+
+    The engine gives '/' a higher precedence than '*' and '-' a higher one than '+', so `a*b/c` is computed as
+    `a*(b/c)`: equal in exact arithmetic, but the intermediates differ.  Every partial product of a chain of
+    factors f_i (numerators |x|, denominators 1/|x|) lies between prod(min(f_i, 1)) and prod(max(f_i, 1)).
+    """
+    op = node[0]
+    own = VALS.get(id(node))
+    own_abs = abs(own) if own is not None and own != 0 else None
+    if op in ("s", "c"):
+        return (own_abs or Fr(0)), (own_abs or Fr(1))
+    if op in ("cons", "prod", "clip"):
+        hi, lo = _assoc_bounds(node[1])
+        return max(hi, own_abs or Fr(0)), min(lo, own_abs or Fr(1))
+    (ha, la), (hb, lb) = _assoc_bounds(node[1]), _assoc_bounds(node[2])
+    if op == "*":
+        return max(ha, Fr(1)) * max(hb, Fr(1)), min(la, Fr(1)) * min(lb, Fr(1))
+    if op == "/":
+        b = VALS.get(id(node[2]))
+        inv = Fr(1) / abs(b) if b is not None and b != 0 else Fr(1)
+        return max(max(ha, Fr(1)) * max(inv, Fr(1)), hb), min(min(la, Fr(1)) * min(inv, Fr(1)), lb)
+    if op in ("+", "-"):
+        return ha + hb, min(la, lb, own_abs or Fr(1))
+    return max(ha, hb), min(la, lb)
 
 
 def _float_eval(node: Any, vals: list[float | None]) -> float:
@@ -567,8 +599,12 @@ def run_case(case: Any, pid: str) -> Verdict:
         try:
             PEAK[0] = Fr(0)
             TINY[0] = Fr(1)
+            VALS.clear()
             want, mag, _ = _ref(tree, vals)
+            hi_any, lo_any = _assoc_bounds(tree)
             mag = max(mag, PEAK[0])
+            peak = max(mag, hi_any)
+            TINY[0] = min(TINY[0], lo_any)
         except _Amb:
             v.labels.add("excluded_ill_conditioned_timestamp")
             continue
@@ -576,8 +612,8 @@ def run_case(case: Any, pid: str) -> Verdict:
             # an intermediate underflows in binary64: not judged
             v.labels.add("excluded_ill_conditioned_timestamp")
             continue
-        if mag > Fr(10) ** 300:
-            # binary64 overflows somewhere: only the clear case is judged (the exact result itself is beyond
+        if peak > Fr(10) ** 300:
+            # binary64 overflows somewhere (under the conventional or the engine's association): only the clear case is judged (the exact result itself is beyond
             # the float range AND a plain float evaluation is not finite either, i.e. no cancellation hides it)
             fl = _float_eval(tree, [None if x is None else float(x) for x in vals])
             if want is not None and abs(want) > Fr(2) ** 1024 and not math.isfinite(fl):
@@ -611,8 +647,9 @@ def run_case(case: Any, pid: str) -> Verdict:
                 vals_p = [None if x is None else (x if (isinstance(row[i], str)) else x + ph) for i, x in enumerate(vals)]
                 try:
                     PEAK[0] = Fr(0)
+                    VALS.clear()
                     want_p, mag_p, _ = _ref(tree, vals_p)
-                    mag_p = max(mag_p, PEAK[0])
+                    mag_p = max(mag_p, PEAK[0], _assoc_bounds(tree)[0])
                 except _Amb:
                     continue
                 if mag_p > Fr(10) ** 300:
